@@ -339,6 +339,7 @@ func (so *Sorts) prelude(body string) string {
 (declare-fun hv_adv (Int Int) Int)
 (declare-fun hv_root (Int) Int)
 (declare-fun hv_offs (Int) Int)
+(declare-fun hv_rtype (Int) Int)
 (assert (= (hv_kind 0) 0))
 (assert (= (hv_base 0) 0))
 (define-fun hv_div ((x Int) (y Int)) Int (ite (>= x 0) (ite (> y 0) (div x y) (- (div x (- y)))) (ite (> y 0) (- (div (- x) y)) (div (- x) (- y)))))
